@@ -22,6 +22,14 @@ Theorem C19_total_order :
 Proof. exact total_order. Qed.
 Print Assumptions C19_total_order.
 
+(** the chain itself, and a Level and the LevelFilter made from it sit at the same place *)
+Theorem C19_chain :
+  (rank (VF None) < rank (VL Error) /\ rank (VL Error) < rank (VL Warn) /\ rank (VL Warn) < rank (VL Info) /\
+   rank (VL Info) < rank (VL Debug) /\ rank (VL Debug) < rank (VL Trace))%N /\
+  forall l, rank (VL l) = rank (VF (Some l)).
+Proof. exact chain. Qed.
+Print Assumptions C19_chain.
+
 Theorem C19_code_le_is_spec : forall a b, eval_op OpLe a b = Some (RB (rank a <=? rank b)).
 Proof. exact code_le_is_spec. Qed.
 Print Assumptions C19_code_le_is_spec.
@@ -35,6 +43,22 @@ Print Assumptions C19_enabled_is_le.
 Theorem C19_max_roundtrip : forall f, current_after f = Some f.
 Proof. exact max_roundtrip. Qed.
 Print Assumptions C19_max_roundtrip.
+
+Theorem C19_max_initial : current_initial = Some None.
+Proof. exact max_initial. Qed.
+Print Assumptions C19_max_initial.
+
+(** each public `LevelFilter::X` constant denotes X (OFF = `LevelFilter(None)`, the others `from_level(Level::X)`) *)
+Theorem C19_filter_consts : forall f, assoc_olv f gen_filter_const = Some f.
+Proof. exact filter_consts. Qed.
+Print Assumptions C19_filter_consts.
+
+(** `from_level`, `into_level`, `From<Level>`, `From<Option<Level>>`, `From<LevelFilter> for Option<Level>`:
+    each body is the identity on the wrapped `Option<Level>` (read off metadata.rs), so a Level and the
+    filter made from it are the same point of the order ([C19_chain]) and converting back returns it. *)
+Theorem C19_conversions_identity : map snd gen_conv_identity = [true; true; true; true; true].
+Proof. exact conversions_identity. Qed.
+Print Assumptions C19_conversions_identity.
 
 Theorem C19_display_parse_level :
   forall l, exists s, display_level l = Some s /\ parse_level s = Some l /\ as_str_level l = Some s.
